@@ -404,6 +404,17 @@ def run(ctx):
         ctx.log("coqchk:", chk_ok)
         if not chk_ok:
             proofs_ok, detail = False, "coqchk rejected the compiled development: " + chk_log[-800:]
+    pinned = []
+    try:
+        for line in open(os.path.join(vplib.COQ, "Generated", "Consts.v")):
+            if "PINNED DEFAULT" in line and ("handler_status_" in line or "provision_url_path" in line):
+                pinned.append(line.split()[1])
+    except OSError:
+        pass
+    if pinned:
+        ctx.notes.append("constants not located in the source, pinned default used (tied by the correspondence run only): " + ", ".join(pinned))
+        ctx.assumptions.append("not located in the source, value pinned from the property text and tied by the end-to-end run only: " + ", ".join(pinned))
+    ctx.coverage["constants_pinned_not_located"] = pinned
     rng = ctx.rng
     e2e.build(ctx)
 
